@@ -1,12 +1,145 @@
-from harness.common import main
+"""C17 -- prior is evaluated before likelihood on the same points; evaluations
+are counted (loop harness over whole SMC runs and resumed runs, plus
+function-level configurations for the importance sampler and
+Aspire.convert_to_samples; the two kernel targets are covered by the C05
+harness, which poses the same obligations through the shared Target stub)."""
+
+from harness.common import core, main, sx, z3
 from harness.loop_base import LoopCheck
+from harness.loop_checks import check_population
+from harness.stubs import FlowStub, Target, UserFns
 
 
 class C17(LoopCheck):
     pid = "C17"
     props = {"C17"}
     flows = ("plain", "resume")
-    required_labels = []
+    required_labels = ["c17/prior_attached", "c17/prior_of_same_points", "c17/count", "c17/importance_count", "c17/convert_weights"]
+
+    def configs(self, tier):
+        out = super().configs(tier)
+        for n in ([2] if tier == "quick" else [2, 3]):
+            out.append({"name": f"importance-N{n}", "kind": "importance", "flow": "fn", "N": n, "d": 2, "D": 1})
+            out.append({"name": f"convert-N{n}", "kind": "convert", "flow": "fn", "N": n, "d": 2, "D": 1})
+        return out
+
+    def ctx_for(self, cfg, seed):
+        if cfg.get("kind") in ("importance", "convert"):
+            return sx.Ctx(self.pid, D=1, seed=seed, timeout_ms=60000)
+        return super().ctx_for(cfg, seed)
+
+    def harness(self, cfg):
+        if cfg.get("kind") == "importance":
+            return self.h_importance(cfg)
+        if cfg.get("kind") == "convert":
+            return self.h_convert(cfg)
+        return super().harness(cfg)
+
+    def h_importance(self, cfg):
+        from aspire.samplers.importance import ImportanceSampler
+
+        n, d = cfg["N"], cfg["d"]
+
+        def h(ctx):
+            fns = UserFns(d)
+            tgt = Target(ctx, d, fns)
+            flow = FlowStub(ctx, d, fns)
+            smp = ImportanceSampler(log_likelihood=tgt.log_likelihood, log_prior=tgt.log_prior, dims=d, prior_flow=flow, xp=sx, parameters=[f"p{k}" for k in range(d)])
+            out = smp.sample(n)
+            ctx.prove(len(tgt.ll_calls) == 1 and tgt.n_points == n, "c17/importance_one_call")
+            ctx.prove(smp.n_likelihood_evaluations == tgt.n_points, "c17/importance_count", detail={"reported": smp.n_likelihood_evaluations, "asked": tgt.n_points})
+            check_population(ctx, fns, out, "c17/importance_fields")
+            # the weights are those of these very points
+            for i in range(n):
+                r = sx.terms(out.x[i])
+                ctx.prove(sx.terms(out.log_w)[i] == fns.L(*r) + fns.PI(*r) - fns.Q(*r), "c17/importance_weights")
+
+        return h
+
+    def h_convert(self, cfg):
+        from aspire.aspire import Aspire
+
+        n, d = cfg["N"], cfg["d"]
+
+        def h(ctx):
+            fns = UserFns(d)
+            tgt = Target(ctx, d, fns)
+            a = Aspire(log_likelihood=tgt.log_likelihood, log_prior=tgt.log_prior, dims=d, parameters=[f"p{k}" for k in range(d)], xp=sx)
+            x = sx.sym("cx", (n, d))
+            lq = fns.apply(fns.Q, x)
+            out = a.convert_to_samples(x, log_q=lq, evaluate=True)
+            ctx.prove(len(tgt.ll_calls) == 1 and tgt.n_points == n, "c17/convert_one_call")
+            for i in range(n):
+                r = sx.terms(out.x[i])
+                ctx.prove(sx.terms(out.log_w)[i] == fns.L(*r) + fns.PI(*r) - fns.Q(*r), "c17/convert_weights")
+            # a supplied prior is used as given and the likelihood still sees it
+            tgt2 = Target(ctx, d, fns)
+            a2 = Aspire(log_likelihood=tgt2.log_likelihood, log_prior=tgt2.log_prior, dims=d, parameters=[f"p{k}" for k in range(d)], xp=sx)
+            out2 = a2.convert_to_samples(x, log_q=lq, log_prior=fns.apply(fns.PI, x), evaluate=True)
+            ctx.prove(len(tgt2.lp_calls) == 0 and len(tgt2.ll_calls) == 1, "c17/convert_supplied_prior")
+
+        return h
+
+    def to_cex(self, fl):
+        if fl["cfg"].get("kind") in ("importance", "convert"):
+            return {"cfg": fl["cfg"], "label": fl["label"], "detail": fl.get("detail"), "env": {}}
+        return super().to_cex(fl)
+
+    def replay(self, cex):
+        if cex["cfg"].get("kind") in ("importance", "convert"):
+            return replay_fn(cex)
+        return super().replay(cex)
+
+
+def replay_fn(cex):
+    import numpy as np
+
+    from aspire.aspire import Aspire
+    from aspire.samplers.importance import ImportanceSampler
+
+    cfg = cex["cfg"]
+    n, d = cfg["N"], cfg["d"]
+    rs = np.random.default_rng(2)
+    bad = []
+    asked = {"n": 0}
+
+    def Lf(x):
+        return -0.5 * np.sum((np.asarray(x) - 0.3) ** 2, axis=-1)
+
+    def Pf(x):
+        return -0.7 * np.sum(np.abs(np.asarray(x)), axis=-1)
+
+    def Qf(x):
+        return -0.25 * np.sum(np.asarray(x) ** 2, axis=-1) - 1.0
+
+    def L(s):
+        asked["n"] += len(s.x)
+        if s.log_prior is None or len(np.asarray(s.log_prior)) != len(s.x) or not np.allclose(np.asarray(s.log_prior, float), Pf(s.x)):
+            bad.append("likelihood called without the prior of these points attached")
+        return Lf(s.x)
+
+    class Flow:
+        def sample_and_log_prob(self, m):
+            x = rs.normal(size=(m, d))
+            return x, Qf(x)
+
+        def log_prob(self, x):
+            return Qf(x)
+
+    with np.errstate(all="ignore"):
+        if cfg["kind"] == "importance":
+            smp = ImportanceSampler(log_likelihood=L, log_prior=lambda s: Pf(s.x), dims=d, prior_flow=Flow(), xp=np)
+            out = smp.sample(n)
+            if smp.n_likelihood_evaluations != asked["n"]:
+                bad.append(f"n_likelihood_evaluations={smp.n_likelihood_evaluations}, asked for {asked['n']} points")
+        else:
+            a = Aspire(log_likelihood=L, log_prior=lambda s: Pf(s.x), dims=d, parameters=[f"p{k}" for k in range(d)], xp=np)
+            x = rs.normal(size=(n, d))
+            out = a.convert_to_samples(x, log_q=Qf(x), evaluate=True)
+        want = Lf(out.x) + Pf(out.x) - Qf(out.x)
+        if not np.allclose(np.asarray(out.log_w, float), want, rtol=0, atol=1e-12):
+            bad.append("weights do not belong to the returned points")
+    return (len(bad) > 0, "; ".join(bad[:3]) if bad else "all clauses hold")
 
 
 if __name__ == "__main__":
